@@ -386,7 +386,7 @@ fn gen_class(g: &mut G, fq: String, sfn: Option<String>, cfg: &Cfg) -> Class {
     for k in 0..nm as usize {
         body.extend(gap(g).into_iter().map(CItem::Junk));
         // overloads: every real Java class has them (several <init>, equals(Object)/equals(T), …)
-        let name = if !used.is_empty() && cfg.overloads && g.rng.chance(1, 4) {
+        let name = if !used.is_empty() && cfg.overloads && g.rng.chance(1, 12) {
             g.f("method.overloaded_name");
             used[g.rng.below(used.len() as u64) as usize].clone()
         } else {
